@@ -294,10 +294,15 @@ struct Exc
   Exc &operator=(Exc const &) = default;
   Exc &operator=(Exc &&) = default;
   virtual ~Exc() = default;
+  // the value the exception carries, read through the dynamic type: "the failure is to_exception(e) for the
+  // thrown e" - a handler that is handed a sliced copy of a derived exception sees the base part's value
+  virtual int code() const { return e; }
 };
 struct ExcDerived : Exc
 {
-  explicit ExcDerived(int x) : Exc(x) {}
+  int d;
+  explicit ExcDerived(int x) : Exc((x + 1) % 3), d(x) {}
+  int code() const override { return d; }
 };
 // what the function passed to try_call does
 struct Outcome
@@ -1377,8 +1382,8 @@ void drive_either(Sizes const &sz)
                 },
                 [&t](Exc const &ex) -> Fv
                 {
-                  log_call("te", 0, std::to_string(ex.e));
-                  return t.at({ex.e});
+                  log_call("te", 0, std::to_string(ex.code()));
+                  return t.at({ex.code()});
                 });
           });
       });
